@@ -9,7 +9,7 @@ LEVEL = {
     "C01": ("reference-model monitor over try_from/TryFrom/into/Into events: exhaustive over all values of 8/16-bit reprs, boundary + sampled for wider ones, on several hundred generated declarations (all 12 reprs, negative / limit / multi-run shapes)", "runtime monitor: reference-model oracle on native debug-UB build"),
     "C02": ("Miri (UB interpreter) on a selection covering every unsafe-site class, rustc debug-build UB checks + discriminant-membership monitor on every event of the whole corpus, valgrind memcheck on a release build in the thorough tier", "Miri + debug UB checks + memcheck + membership monitor"),
     "C03": ("reference-model monitor: every variant of every generated declaration rendered through as_str / Display / Debug / IntoStr in every mode and compared byte-wise with the model name", "runtime monitor: reference-model oracle"),
-    "C04": ("reference-model monitor over from_str/FromStr on names, single-edit neighbours, identifiers of renamed variants, empty and random strings; fn vs trait agreement; cross-mode agreement through the C09 transcripts", "runtime monitor: reference-model oracle"),
+    "C04": ("reference-model monitor over from_str/FromStr on names, single-edit neighbours, permutations of a name's characters, cross-overs of two names, identifiers of renamed variants, empty strings, and a volume stage of random non-names (reach: false-accept rates down to about 1e-5 per case in the quick tier, 1e-7 on large enums in the thorough tier); fn vs trait agreement; cross-mode agreement through the C09 transcripts", "runtime monitor: reference-model oracle"),
     "C05": ("reference-model monitor over MIN/MAX/next/next_back for every variant plus bounded walks, on shapes with runs at the type limits, singletons, one-wide gaps, i64 extremes and all declaration orders", "runtime monitor: reference-model oracle"),
     "C06": ("online checker: two-cursor iterator automaton compared with iter() on exhaustive front/back interleavings (small n), fixed and seeded random histories incl. nth/nth_back beyond the end and every consuming operation, in every iterator mode", "runtime monitor: iterator automaton over operation histories"),
     "C07": ("online checker: range(a, b) against the model slice for all ordered pairs (small n) or boundary + sampled pairs, several histories per pair, in every mode that supports range", "runtime monitor: iterator automaton over operation histories"),
@@ -20,9 +20,9 @@ LEVEL = {
     "C11": ("compile-outcome monitor + three-way discriminant agreement (generator model = compiler `v as repr` = macro's values in the hook log and observable into/try_from/MIN/MAX/iteration order) over the literal-spelling / implicit-discriminant / limit / size / foreign-attribute catalogue for each repr", "runtime monitor over rustc verdicts + expansion event log + runtime oracles"),
     "C12": ("compile-outcome monitor: mutation catalogue of out-of-domain declarations, each must fail to compile (batch screen, every apparent acceptance recompiled alone) while its control copy without the derive compiles", "runtime monitor over rustc verdicts (two-stage, control copies)"),
     "C13": ("compile-outcome monitor: catalogue of invalid enum-level and variant-level attributes on a gapless and a with-holes enum, each must fail to compile (two-stage confirmation)", "runtime monitor over rustc verdicts (two-stage)"),
-    "C14": ("compile-outcome monitor: all permutations of small enums x sorted flags, accept/reject compared with the model's strictly-ascending verdict, should-fail items with control copies", "runtime monitor over rustc verdicts against a reference model"),
-    "C15": ("privacy / name-resolution probes (positive must compile, negative must fail, each negative an item of its own) from the defining module, its parent, the crate root and an external crate for every enum visibility and item vis/name/struct_name, plus a scan of the hook log's expansion text for every non-private fn/const/struct", "runtime monitor over rustc verdicts + expansion event log"),
-    "C17": ("expansion event log compared across repeated modules (fresh RandomState per HashMap) and fresh rustc processes (fresh per-process seeds): one distinct output text per input text", "runtime monitor: expansion event log across processes"),
+    "C14": ("compile-outcome monitor: all permutations of small enums x sorted flags, accept/reject compared with the model's strictly-ascending verdict (raw-identifier variants ordered by the spelling the string items are observed to answer), should-fail items with control copies; an item rejected only when expanded after other enums of its crate is reported", "runtime monitor over rustc verdicts against a reference model"),
+    "C15": ("privacy / name-resolution probes (positive must compile, negative must fail, each negative an item of its own) from the defining module, its parent, the crate root and an external crate for every enum visibility and item vis/name/struct_name (the iterator structs in every iterator mode), plus a scan of the hook log's expansion text for every non-private fn/const/struct", "runtime monitor over rustc verdicts + expansion event log"),
+    "C17": ("expansion event log compared across repeated modules (fresh RandomState per HashMap) and fresh rustc processes (fresh per-process seeds) which expand the declarations in rotated orders: one distinct output text per input text, and the same accept / reject outcome in every process", "runtime monitor: expansion event log across processes"),
     "C19": ("compile-time ascription probes (const contexts, fn-pointer coercions, Result<E, ()> and associated-type ascriptions, iterator trait bounds) for every mode / shape case", "runtime monitor over rustc verdicts of ascription probes"),
     "C18": ("relational monitor: transcripts compared across permuted declaration orders and every admissible repr of one value->name map", "runtime monitor: differential transcripts"),
 }
